@@ -10,7 +10,7 @@ LEVEL = {
         "design_ref": "DESIGN.md 4/C11", "note": _NOTE, "technique": "Lean 4 proof (invariant by induction over operation histories) + model/implementation correspondence check",
     },
     "C17": {
-        "text": "Lean theorem C17_lookup_latest: for every registration history and every character the model's Lookup equals the reference of the most recent covering registration after the last Clear; tied to CharReferenceMap by exhaustive histories over the boundary endpoint set and random histories, comparing returned references by identity.",
+        "text": "Second sentence of the property as theorems over the configuration model (Props/C17Tok.lean): after any history of SetCharacterState / ClearCharacterStates / SetWordChars / SetWhitespaceChars on a constructed tokenizer every character is handed to the state of the latest covering registration, a nil registration disables it; tied by 3000+ user-configured tokenizers per run. Lean theorem C17_lookup_latest: for every registration history and every character the model's Lookup equals the reference of the most recent covering registration after the last Clear; tied to CharReferenceMap by exhaustive histories over the boundary endpoint set and random histories, comparing returned references by identity.",
         "design_ref": "DESIGN.md 4/C17", "note": _NOTE, "technique": "Lean 4 proof (induction over registration histories, refinement to a latest-registration spec) + correspondence check",
     },
 }
@@ -25,7 +25,7 @@ LEVEL["C16"] = {
     "design_ref": "DESIGN.md 4/C16", "note": _NOTE, "technique": "Lean 4 proof (data-structure invariant by induction over registrations + longest-match characterisation) + correspondence check",
 }
 
-_TOKNOTE = _NOTE + " Theorems cover the generic, expression and csv tokenizers (csv for every separator/quote configuration); the mustache tokenizer's override is modelled and checked by correspondence + oracle only."
+_TOKNOTE = _NOTE + " Theorems cover all four built-in tokenizers: generic, expression, csv (every separator/quote configuration) through tokenize_eq_streamSpec, and the mustache tokenizer's mode-alternating override through tokenize_mustache_eq (Props/MustacheTok.lean)."
 LEVEL["C04"] = {
     "text": "Lean theorem C04_lossless for every input: token values concatenate to the input, only the final Eof is empty — proved from per-state segment lemmas (every state, incl. fall-back paths and the EOF slot, moves exactly a contiguous slice) and a main-loop induction. Tied to the Go tokenizers by exhaustive class-alphabet strings, lexeme soup and random inputs, compared token by token with the compiled model and with the concatenation oracle.",
     "design_ref": "DESIGN.md 4/C04", "note": _TOKNOTE, "technique": "Lean 4 proof (loop invariants / segment lemmas, induction over the input) + correspondence check",
@@ -40,7 +40,7 @@ LEVEL["C15"] = {
 }
 
 LEVEL["C01"] = {
-    "text": "Lean theorems: compiler correctness of the RPN evaluator (run on post-order = direct tree evaluation, for every tree, environment and variant-operation table), parentheses/unary-plus irrelevance, left associativity, the precedence table; with C02_complete this is calculator = syntax-tree value. Tied to the Go calculator by generated trees in three parenthesisation modes under random typed assignments, the full operator-pair matrix, a Go-side tree evaluator as oracle and the Lean evaluator model run on the implementation's own compiled program.",
+    "text": "Text level too (Props/C01Text.lean, C01Lit.lean): for every well-levelled tree with printable leaves the calculator applied to the characters of the rendered tree — trim, expression tokenizer under the parser's options, lexical analysis with exact decoding of numeric constants, parser, stack evaluator — returns the value of the tree (C01_text_calculate), any blank runs between lexemes give the same program, decimal constants are decoded exactly (nearest-even binary32 proved globally optimal). Lean theorems: compiler correctness of the RPN evaluator (run on post-order = direct tree evaluation, for every tree, environment and variant-operation table), parentheses/unary-plus irrelevance, left associativity, the precedence table; with C02_complete this is calculator = syntax-tree value. Tied to the Go calculator by generated trees in three parenthesisation modes under random typed assignments, the full operator-pair matrix, a Go-side tree evaluator as oracle and the Lean evaluator model run on the implementation's own compiled program.",
     "design_ref": "DESIGN.md 4/C01", "note": _NOTE, "technique": "Lean 4 proof (compiler correctness by mutual structural induction over syntax trees) + correspondence check",
 }
 LEVEL["C02"] = {
@@ -68,7 +68,7 @@ LEVEL["C19"] = {
 
 LEVEL["C10"] = {
     "text": "Lean theorems: escaping is a one-pass map; the section parser is complete for trees of any depth; rendering equals the reference semantics; every tag spelling is lexed to its flat token with blanks anywhere; unopened / unclosed / mismatched sections, mismatched brace counts and unclosed tags are rejected; variable lookup is case-insensitive and independent of the map's iteration order. Tied to the Go engine by generated template trees x variable maps against an independent reference renderer, exhaustive lexeme strings for accept/reject, and comparison of rendering, parse tree and variable list with the compiled model.",
-    "design_ref": "DESIGN.md 4/C10", "note": _NOTE + " The text-to-token step of the mustache tokenizer is covered by correspondence only.", "technique": "Lean 4 proof (refinement of parser+renderer to a reference semantics on template trees, state-machine lemmas per tag spelling) + correspondence check",
+    "design_ref": "DESIGN.md 4/C10", "note": _NOTE + " The text-to-token step is now a theorem for the tokenizer (tokenize_mustache_eq); the composition text -> tree for printed templates is being added (C10Text).", "technique": "Lean 4 proof (refinement of parser+renderer to a reference semantics on template trees, state-machine lemmas per tag spelling) + correspondence check",
 }
 
 LEVEL["C08"] = {
